@@ -37,7 +37,7 @@ def iv(x):
 class Eval:
     def __init__(self, tu):
         self.tu = tu
-        for f in ('utf8_decode_next', 'get', 'cont'):
+        for f in ('utf8_decode_next',):
             if f not in tu.functions: raise AnalysisBroken(f'decoder function {f} not found in {tu.unit.key}')
         self.nsplit = 0
 
@@ -136,7 +136,7 @@ class Eval:
             return self.ev(n['inner'][1 if self.truth(self.ev(n['inner'][0])) else 2])
         if k == 'CallExpr':
             nm = callee_name(n)
-            if nm in ('get', 'cont'): return self.call_fn(nm, [self.ev(a) for a in n['inner'][1:]])
+            if nm in self.tu.functions and nm != 'utf8_decode_next' and self.tu.in_unit_file(self.tu.functions[nm]): return self.call_fn(nm, [self.ev(a) for a in n['inner'][1:]])      # byte readers / helpers of the decoder's own unit
             raise AnalysisBroken(f'decoder: call of {nm} at {where(n)}')
         if k == 'CompoundAssignOperator':
             lhs = n['inner'][0]; v = self.binop(n['opcode'][:-1], self.ev(lhs), self.ev(n['inner'][1]))
